@@ -151,7 +151,22 @@ def block_seeded():
     return "\n".join(rows)
 
 
-BLOCKS = dict(overview=block_overview, fixes=block_fixes, known=block_known, seeded=block_seeded, benign=block_benign)
+def block_wave3():
+    import sys
+    sys.path.insert(0, here)
+    from agstatic import registry
+    rows = ["| property | clause / scenario family added in the held-out round |", "|---|---|"]
+    for pid, txt in sorted(registry.WAVE3.items()):
+        rows.append("| %s | %s |" % (pid, txt.strip().replace("|", "\\|")))
+    rows.append("| C02 | `repeat`: a second `DCode.get_instructions` must report what the first did |")
+    rows.append("| C03 | readers run on 8 arbitrary bytes followed by end of file (a reader that follows more than five continuation bits is seen) |")
+    rows.append("| C04 | `class-binding`: `ClassDefItem.reload` on two class definitions sharing one `encoded_array_item`; exact `a - (a & sign)` arithmetic in the bit domain |")
+    rows.append("| C27 | `sequence/A-then-B`: one data word formatted as two types in one interpreter vs a fresh interpreter |")
+    rows.append("| C30 | language and region halves with the same packed bytes; `bytes(list)` + `struct.unpack` of the locale word; semantic comparison with witnesses |")
+    return "\n".join(rows[:2] + sorted(rows[2:]))
+
+
+BLOCKS = dict(wave3=block_wave3, overview=block_overview, fixes=block_fixes, known=block_known, seeded=block_seeded, benign=block_benign)
 p = os.path.join(here, "DESIGN.md")
 t = open(p).read()
 for name, fn in BLOCKS.items():
